@@ -231,6 +231,16 @@ fn lag(rep: &mut Report, v: &Value) {
         let vi: Vec<i32> = enc_vec(&s);
         cmp_seq(rep, "vdiff", &key("vdiff"), "Vec<i32>", catch(|| drain(vi.vdiff(n, Some(fill as i32)))), &e_diff, v);
     }
+    // the value 0 has two encodings in a float type: with every zero written as -0.0 the results are the same
+    // VALUES (MapOps.tla ZeroSignFree; a zero base of a percentage change is a zero base whatever its sign)
+    if any_of(s.iter(), |x| *x == 0) {
+        let vz: Vec<f64> = vf.iter().map(|x| if *x == 0.0 { -0.0 } else { *x }).collect();
+        let voz: Vec<Option<f64>> = vz.iter().map(|x| if x.is_nan() { None } else { Some(*x) }).collect();
+        cmp_seq(rep, "vshift", &key("vshift"), "Vec<f64>(zeros as -0.0).titer()", catch(|| drain(vz.titer().vshift(n, fo))), &e_shift, v);
+        cmp_seq(rep, "vdiff", &key("vdiff"), "Vec<f64>(zeros as -0.0)", catch(|| drain(vz.vdiff(n, fo))), &e_diff, v);
+        cmp_seq(rep, "vpct_change", &key("vpct_change"), "Vec<f64>(zeros as -0.0)", catch(|| drain(vz.vpct_change(n))), &e_pct, v);
+        cmp_seq(rep, "vpct_change", &key("vpct_change"), "Vec<Option<f64>>(zeros as -0.0)", catch(|| drain(voz.vpct_change(n))), &e_pct, v);
+    }
     // ---- the same series (and fill value) in other units of measurement ----
     if let Some(deg) = v.get("deg").and_then(|d| d.as_object()) {
         let d = |k: &str| deg[k].as_i64().unwrap() as i32;
